@@ -369,3 +369,165 @@ Proof. split; reflexivity. Qed.
 Lemma bulk_perm_nonvacuous_proof :
   Permutation [([snap_ex], id9); (([] : hist), ([] : RL))] [(([] : hist), ([] : RL)); ([snap_ex], id9)].
 Proof. apply perm_swap. Qed.
+
+(* ====================== an update under null forcing (C07) ====================== *)
+(* the sliding rule on a texture without grains below the threshold is the identity *)
+Lemma gbs_orient_none chi n (os prev : list RL) (fs : RL) :
+  length os = length fs -> length prev = length fs -> Forall (fun f => thr chi n <= f) fs ->
+  @gbs_orient NumR chi n os prev fs = os.
+Proof.
+  revert os prev. induction fs as [|f fs IH]; intros os prev Ho Hp Hall.
+  - destruct os; [reflexivity | discriminate Ho].
+  - destruct os as [|o os]; [discriminate Ho|]. destruct prev as [|p prev]; [discriminate Hp|].
+    inversion Hall as [|? ? Hf Hfs]; subst. cbn [gbs_orient].
+    assert (E : @gbs_mask NumR chi n f = false).
+    { unfold gbs_mask, gbs_thr. numR. apply Rltb_false. exact Hf. }
+    rewrite E. f_equal. apply IH; [injection Ho; auto | injection Hp; auto | exact Hfs].
+Qed.
+
+Lemma gbs_floor_none chi n (fs : RL) : Forall (fun f => thr chi n <= f) fs -> @gbs_floor NumR chi n fs = fs.
+Proof.
+  intros Hall. unfold gbs_floor. rewrite <- (map_id fs) at 2. apply map_ext_in. intros f Hf.
+  rewrite Forall_forall in Hall. specialize (Hall f Hf).
+  assert (E : @gbs_mask NumR chi n f = false).
+  { unfold gbs_mask, gbs_thr. numR. apply Rltb_false. exact Hall. }
+  rewrite E. reflexivity.
+Qed.
+
+Lemma gbs_fracs_none chi n (fs : RL) : Forall (fun f => thr chi n <= f) fs -> rsum fs = 1 ->
+  @gbs_fracs NumR chi n fs = fs.
+Proof.
+  intros Hall Hs. unfold gbs_fracs. cbv zeta. rewrite gbs_floor_none by exact Hall.
+  rewrite nsum_R, Hs. rewrite <- (map_id fs) at 2. apply map_ext. intros x. numR. field.
+Qed.
+
+(* C07: an update whose integrator hands back the start vector unchanged (null forcing: every component of the
+   vector field is zero) returns the same F and stores the SAME snapshot again -- provided no grain is below the
+   sliding threshold chi/n ... *)
+Theorem null_update_identity n chi (Fd : RL) (s : @snapshot NumR) :
+  length Fd = 9%nat -> valid_snapshot n s -> Forall (fun f => thr chi n <= f) (sn_f s) ->
+  @update NumR n chi s (@y_start NumR Fd s) = (Fd, s).
+Proof.
+  intros HF Hv Hall. pose proof (start_is_last_snapshot n Fd s HF Hv) as (E1 & E2 & E3). cbv zeta in E1, E2, E3.
+  destruct Hv as (Ho & Hg & Hf & Hnn & Hsum).
+  unfold update. cbv zeta. rewrite E1, E2, E3.
+  rewrite gbs_orient_none; [ | change (T NumR) with R in *; congruence | change (T NumR) with R in *; congruence | exact Hall].
+  rewrite gbs_fracs_none by assumption.
+  fold (@y_start NumR Fd s). rewrite E1, E2, E3. destruct s; reflexivity.
+Qed.
+
+(* ... and NOT otherwise (the open finding C07:null-forcing:gbs-refloor as a statement about the model): a valid
+   snapshot with a grain below chi/n is re-floored by an update under null forcing, its stored volumes change *)
+Definition snap_small : @snapshot NumR := @Build_snapshot NumR [id9; id9] [0.9; 0.1].
+
+Lemma snap_small_valid : valid_snapshot 2 snap_small.
+Proof.
+  unfold valid_snapshot, snap_small; cbn [sn_o sn_f].
+  split; [reflexivity|]. split; [apply Forall_cons; [apply id9_ok|apply Forall_cons; [apply id9_ok|apply Forall_nil]]|].
+  split; [reflexivity|]. split.
+  - apply Forall_cons; [unfold nonneg; lra|apply Forall_cons; [unfold nonneg; lra|apply Forall_nil]].
+  - unfold rsum; cbn [fold_right]; lra.
+Qed.
+
+Theorem null_update_refloors :
+  valid_snapshot 2 snap_small /\ 0 <= 0.3 /\
+  sn_f (snd (@update NumR 2 0.3 snap_small (@y_start NumR id9 snap_small))) <> sn_f snap_small.
+Proof.
+  split; [apply snap_small_valid|]. split; [lra|].
+  pose proof (start_is_last_snapshot 2 id9 snap_small eq_refl snap_small_valid) as (_ & _ & E3). cbv zeta in E3.
+  assert (Hy : length (@y_start NumR id9 snap_small) = (9 + 10 * 2)%nat) by reflexivity.
+  assert (Hpos : 0 < rsum (clipped_fracs (@y_start NumR id9 snap_small) 2)).
+  { unfold clipped_fracs.
+    change (firstn 2 (skipn (9 * 2 + 9) (@y_start NumR id9 snap_small))) with [0.9; 0.1].
+    cbn [map]. unfold clip0. numR. unfold rsum. cbn [fold_right].
+    repeat match goal with |- context [Rltb ?a ?b] => destruct (Rltb a b) eqn:? end; bool2prop; lra. }
+  destruct snap_small_valid as (Ho & Hg & _).
+  destruct (update_stores_gbs 2 0.3 snap_small (@y_start NumR id9 snap_small) ltac:(lia) ltac:(lra) Hy Hpos Ho Hg) as [_ Hf].
+  rewrite Hf, E3. cbn [snap_small sn_f].
+  unfold gbs_fracs, gbs_floor, gbs_mask, gbs_thr, nsum. cbn [map fold_left Z.of_nat Pos.of_succ_nat Pos.succ]. numR.
+  repeat match goal with |- context [Rltb ?a ?b] => destruct (Rltb a b) eqn:? end; bool2prop; cbn [map fold_left];
+    try lra; intros H; injection H; intros; lra.
+Qed.
+
+Lemma null_update_nonvacuous_proof :
+  length id9 = 9%nat /\ valid_snapshot 2 snap_ex /\ Forall (fun f => thr 0.3 2 <= f) (sn_f snap_ex).
+Proof.
+  split; [reflexivity|]. split; [apply snap_ex_valid|]. unfold snap_ex, thr; cbn [sn_f Z.of_nat Pos.of_succ_nat Pos.succ].
+  apply Forall_cons; [lra|apply Forall_cons; [lra|apply Forall_nil]].
+Qed.
+
+(* ====================== histories of bulk updates (C08, C01) ====================== *)
+(* ---- histories of bulk updates: K minerals, any number of update_all calls ---- *)
+Definition bulk_step (n : nat) (chi : R) (hs : list hist) (ys : list RL) : list hist :=
+  snd (bulk_pairs n chi (combine hs ys)).
+Definition bulk_run (n : nat) (chi : R) (hs : list hist) (yss : list (list RL)) : list hist :=
+  fold_left (bulk_step n chi) yss hs.
+
+Lemma bulk_step_length n chi (hs : list hist) (ys : list RL) :
+  length ys = length hs -> length (bulk_step n chi hs ys) = length hs.
+Proof.
+  intros Hl. unfold bulk_step. rewrite bulk_pairs_spec. cbn [snd]. rewrite map_length, combine_length. lia.
+Qed.
+
+Lemma bulk_step_nth n chi (hs : list hist) (ys : list RL) i (d : hist) (dy : RL) :
+  length ys = length hs -> (i < length hs)%nat ->
+  nth i (bulk_step n chi hs ys) d = step n chi (nth i hs d) (Ok (nth i ys dy)).
+Proof.
+  intros Hl Hi. unfold bulk_step. rewrite bulk_pairs_spec. cbn [snd].
+  set (g := fun m : hist * RL => step n chi (fst m) (Ok (snd m))).
+  rewrite (nth_indep _ d (g (d, dy))) by (rewrite map_length, combine_length; lia).
+  rewrite (map_nth g (combine hs ys) (d, dy) i). rewrite combine_nth by (symmetry; exact Hl). reflexivity.
+Qed.
+
+(* every mineral of an assemblage that is advanced by any number of update_all calls ends with the history it would
+   have had alone, updated with its own integrator vectors: the minerals evolve independently *)
+Theorem bulk_run_each n chi (yss : list (list RL)) : forall (hs : list hist) i (d : hist) (dy : RL),
+  Forall (fun ys => length ys = length hs) yss -> (i < length hs)%nat ->
+  nth i (bulk_run n chi hs yss) d = run n chi (nth i hs d) (map (fun ys => Ok (nth i ys dy)) yss).
+Proof.
+  induction yss as [|ys yss IH]; intros hs i d dy Hall Hi; [reflexivity|].
+  inversion Hall as [|? ? Hy Hys]; subst. cbn [bulk_run fold_left map run].
+  fold (bulk_run n chi (bulk_step n chi hs ys) yss).
+  fold (run n chi (step n chi (nth i hs d) (Ok (nth i ys dy))) (map (fun ys0 => Ok (nth i ys0 dy)) yss)).
+  rewrite <- (bulk_step_nth n chi hs ys i d dy Hy Hi).
+  apply IH.
+  - rewrite bulk_step_length by exact Hy. exact Hys.
+  - rewrite bulk_step_length by exact Hy. exact Hi.
+Qed.
+
+Lemma bulk_run_length n chi (yss : list (list RL)) : forall hs : list hist,
+  Forall (fun ys => length ys = length hs) yss -> length (bulk_run n chi hs yss) = length hs.
+Proof.
+  induction yss as [|ys yss IH]; intros hs Hall; [reflexivity|].
+  inversion Hall as [|? ? Hy Hys]; subst. cbn [bulk_run fold_left]. fold (bulk_run n chi (bulk_step n chi hs ys) yss).
+  rewrite IH; rewrite bulk_step_length by exact Hy; [reflexivity | exact Hys].
+Qed.
+
+(* ... hence the C01 invariant for whole assemblages: every stored snapshot of every mineral is a valid texture *)
+Theorem bulk_run_invariant n chi (yss : list (list RL)) (hs : list hist) :
+  (0 < n)%nat -> 0 <= chi -> Forall (hist_inv n) hs ->
+  Forall (fun ys => length ys = length hs /\ Forall (fun y => step_ok n (Ok y)) ys) yss ->
+  Forall (hist_inv n) (bulk_run n chi hs yss).
+Proof.
+  intros Hn Hchi Hinv Hall.
+  assert (Hlen : Forall (fun ys => length ys = length hs) yss).
+  { eapply Forall_impl; [|exact Hall]. intros ys [H _]; exact H. }
+  apply Forall_forall. intros h Hh. apply (In_nth _ _ ([] : hist)) in Hh as (i & Hi & <-).
+  rewrite bulk_run_length in Hi by exact Hlen.
+  rewrite (bulk_run_each n chi yss hs i [] [] Hlen Hi).
+  apply history_inv; try assumption.
+  - rewrite Forall_forall in Hinv. apply Hinv. apply nth_In. exact Hi.
+  - apply Forall_forall. intros ry Hry. apply in_map_iff in Hry as (ys & <- & Hys).
+    rewrite Forall_forall in Hall. destruct (Hall ys Hys) as [Hl Hok].
+    rewrite Forall_forall in Hok. apply Hok. apply nth_In. rewrite Hl. exact Hi.
+Qed.
+
+(* C06, across updates: when the F an update returns is passed to the next update (of this or of another mineral), the
+   next integration of F starts EXACTLY at the F block of the vector the previous integrator ended with -- neither the
+   clips, nor the sliding floor, nor the normalisation touch it *)
+Theorem F_handover n chi (prev s' : @snapshot NumR) (y : RL) : length y = (9 + 10 * n)%nat ->
+  @ev_F NumR (@y_start NumR (fst (@update NumR n chi prev y)) s') = firstn 9 y.
+Proof.
+  intros Hy. rewrite update_returns_F_block' by exact Hy. apply y_start_F.
+  rewrite firstn_length. change (T NumR) with R in *. lia.
+Qed.
